@@ -1,4 +1,12 @@
-/-
+"""Writes lean/HitenModel/Props/C04.lean (static text + the 36 polynomial certificates of tools/c04_nfcert.json, which
+tools/c04_nfcert.py computes with sympy).  Run once after editing; the check never runs it."""
+import json
+import os
+cert=json.load(open(os.path.join(os.path.dirname(os.path.abspath(__file__)),'c04_nfcert.json')))
+def fix(s):
+    return s.replace('lam','l').replace('om','o').replace('c2','c')
+L=[]
+L.append('''/-
   Props/C04.lean — property C04: libration points are equilibria with the correct linear dynamics.
   `Gen.C04` is traced from the current `types/services/libration.py` on every run (dOmega/dx, the three quintics, c_n, J·Hess(H2),
   scale factors, the normal-form matrix) together with the body catalogue and the live search brackets; `Gen.C01` supplies the
@@ -293,151 +301,17 @@ def symplTarget (l o c : ℝ) : ℕ → ℕ → ℝ
   | 0, 3 => E1 l c | 1, 4 => E2 o c | 2, 5 => 1 | _, _ => 0
 def quadTarget (l o c : ℝ) : ℕ → ℕ → ℝ
   | 0, 3 => l * E1 l c | 1, 1 => o * E2 o c | 4, 4 => o * E2 o c | 2, 2 => c | 5, 5 => 1 | _, _ => 0
-theorem sympl_0_1 (l o c : ℝ) (h1 : l ^ 2 - o ^ 2 = c - 2) (h2 : l ^ 2 * o ^ 2 = 2 * c ^ 2 - c - 1) :
-    sympl l o c 0 1 = symplTarget l o c 0 1 := by
-  simp only [sympl, symplTarget, Chat, E1, E2]
-  linear_combination (2*c*l + l) * h1 + (l) * h2
-theorem sympl_0_2 (l o c : ℝ) (h1 : l ^ 2 - o ^ 2 = c - 2) (h2 : l ^ 2 * o ^ 2 = 2 * c ^ 2 - c - 1) :
-    sympl l o c 0 2 = symplTarget l o c 0 2 := by
-  simp only [sympl, symplTarget, Chat, E1, E2]
-  linear_combination (0) * h1 + (0) * h2
-theorem sympl_0_3 (l o c : ℝ) (h1 : l ^ 2 - o ^ 2 = c - 2) (h2 : l ^ 2 * o ^ 2 = 2 * c ^ 2 - c - 1) :
-    sympl l o c 0 3 = symplTarget l o c 0 3 := by
-  simp only [sympl, symplTarget, Chat, E1, E2]
-  linear_combination (-2*l^3) * h1 + (-2*l) * h2
-theorem sympl_0_4 (l o c : ℝ) (h1 : l ^ 2 - o ^ 2 = c - 2) (h2 : l ^ 2 * o ^ 2 = 2 * c ^ 2 - c - 1) :
-    sympl l o c 0 4 = symplTarget l o c 0 4 := by
-  simp only [sympl, symplTarget, Chat, E1, E2]
-  linear_combination (-2*c*o - o) * h1 + (-o) * h2
-theorem sympl_0_5 (l o c : ℝ) (h1 : l ^ 2 - o ^ 2 = c - 2) (h2 : l ^ 2 * o ^ 2 = 2 * c ^ 2 - c - 1) :
-    sympl l o c 0 5 = symplTarget l o c 0 5 := by
-  simp only [sympl, symplTarget, Chat, E1, E2]
-  linear_combination (0) * h1 + (0) * h2
-theorem sympl_1_2 (l o c : ℝ) (h1 : l ^ 2 - o ^ 2 = c - 2) (h2 : l ^ 2 * o ^ 2 = 2 * c ^ 2 - c - 1) :
-    sympl l o c 1 2 = symplTarget l o c 1 2 := by
-  simp only [sympl, symplTarget, Chat, E1, E2]
-  linear_combination (0) * h1 + (0) * h2
-theorem sympl_1_3 (l o c : ℝ) (h1 : l ^ 2 - o ^ 2 = c - 2) (h2 : l ^ 2 * o ^ 2 = 2 * c ^ 2 - c - 1) :
-    sympl l o c 1 3 = symplTarget l o c 1 3 := by
-  simp only [sympl, symplTarget, Chat, E1, E2]
-  linear_combination (2*c*l + l) * h1 + (l) * h2
-theorem sympl_1_4 (l o c : ℝ) (h1 : l ^ 2 - o ^ 2 = c - 2) (h2 : l ^ 2 * o ^ 2 = 2 * c ^ 2 - c - 1) :
-    sympl l o c 1 4 = symplTarget l o c 1 4 := by
-  simp only [sympl, symplTarget, Chat, E1, E2]
-  linear_combination (-o^3) * h1 + (o) * h2
-theorem sympl_1_5 (l o c : ℝ) (h1 : l ^ 2 - o ^ 2 = c - 2) (h2 : l ^ 2 * o ^ 2 = 2 * c ^ 2 - c - 1) :
-    sympl l o c 1 5 = symplTarget l o c 1 5 := by
-  simp only [sympl, symplTarget, Chat, E1, E2]
-  linear_combination (0) * h1 + (0) * h2
-theorem sympl_2_3 (l o c : ℝ) (h1 : l ^ 2 - o ^ 2 = c - 2) (h2 : l ^ 2 * o ^ 2 = 2 * c ^ 2 - c - 1) :
-    sympl l o c 2 3 = symplTarget l o c 2 3 := by
-  simp only [sympl, symplTarget, Chat, E1, E2]
-  linear_combination (0) * h1 + (0) * h2
-theorem sympl_2_4 (l o c : ℝ) (h1 : l ^ 2 - o ^ 2 = c - 2) (h2 : l ^ 2 * o ^ 2 = 2 * c ^ 2 - c - 1) :
-    sympl l o c 2 4 = symplTarget l o c 2 4 := by
-  simp only [sympl, symplTarget, Chat, E1, E2]
-  linear_combination (0) * h1 + (0) * h2
-theorem sympl_2_5 (l o c : ℝ) (h1 : l ^ 2 - o ^ 2 = c - 2) (h2 : l ^ 2 * o ^ 2 = 2 * c ^ 2 - c - 1) :
-    sympl l o c 2 5 = symplTarget l o c 2 5 := by
-  simp only [sympl, symplTarget, Chat, E1, E2]
-  linear_combination (0) * h1 + (0) * h2
-theorem sympl_3_4 (l o c : ℝ) (h1 : l ^ 2 - o ^ 2 = c - 2) (h2 : l ^ 2 * o ^ 2 = 2 * c ^ 2 - c - 1) :
-    sympl l o c 3 4 = symplTarget l o c 3 4 := by
-  simp only [sympl, symplTarget, Chat, E1, E2]
-  linear_combination (-2*c*o - o) * h1 + (-o) * h2
-theorem sympl_3_5 (l o c : ℝ) (h1 : l ^ 2 - o ^ 2 = c - 2) (h2 : l ^ 2 * o ^ 2 = 2 * c ^ 2 - c - 1) :
-    sympl l o c 3 5 = symplTarget l o c 3 5 := by
-  simp only [sympl, symplTarget, Chat, E1, E2]
-  linear_combination (0) * h1 + (0) * h2
-theorem sympl_4_5 (l o c : ℝ) (h1 : l ^ 2 - o ^ 2 = c - 2) (h2 : l ^ 2 * o ^ 2 = 2 * c ^ 2 - c - 1) :
-    sympl l o c 4 5 = symplTarget l o c 4 5 := by
-  simp only [sympl, symplTarget, Chat, E1, E2]
-  linear_combination (0) * h1 + (0) * h2
-theorem quad_0_0 (l o c : ℝ) (h1 : l ^ 2 - o ^ 2 = c - 2) (h2 : l ^ 2 * o ^ 2 = 2 * c ^ 2 - c - 1) :
-    quad l o c 0 0 = quadTarget l o c 0 0 := by
-  simp only [quad, quadTarget, Chat, E1, E2]
-  linear_combination (-4*c^2 - 2*c*l^2 + 2*c + l^4 + 2*l^2*o^2 - l^2 + 2) * h1 + (-l^2 + 2*o^2 - 5) * h2
-theorem quad_0_1 (l o c : ℝ) (h1 : l ^ 2 - o ^ 2 = c - 2) (h2 : l ^ 2 * o ^ 2 = 2 * c ^ 2 - c - 1) :
-    quad l o c 0 1 = quadTarget l o c 0 1 := by
-  simp only [quad, quadTarget, Chat, E1, E2]
-  linear_combination (-4*c^2 + 2*c + l^2*o^2 + 2) * h1 + (-l^2 + o^2 - 5) * h2
-theorem quad_0_2 (l o c : ℝ) (h1 : l ^ 2 - o ^ 2 = c - 2) (h2 : l ^ 2 * o ^ 2 = 2 * c ^ 2 - c - 1) :
-    quad l o c 0 2 = quadTarget l o c 0 2 := by
-  simp only [quad, quadTarget, Chat, E1, E2]
-  linear_combination (0) * h1 + (0) * h2
-theorem quad_0_3 (l o c : ℝ) (h1 : l ^ 2 - o ^ 2 = c - 2) (h2 : l ^ 2 * o ^ 2 = 2 * c ^ 2 - c - 1) :
-    quad l o c 0 3 = quadTarget l o c 0 3 := by
-  simp only [quad, quadTarget, Chat, E1, E2]
-  linear_combination (-4*c^2 - 2*c*l^2 + 2*c - l^4 + 2*l^2*o^2 - l^2 + 2) * h1 + (-3*l^2 + 2*o^2 - 5) * h2
-theorem quad_0_4 (l o c : ℝ) (h1 : l ^ 2 - o ^ 2 = c - 2) (h2 : l ^ 2 * o ^ 2 = 2 * c ^ 2 - c - 1) :
-    quad l o c 0 4 = quadTarget l o c 0 4 := by
-  simp only [quad, quadTarget, Chat, E1, E2]
-  linear_combination (-2*c*l*o - l*o) * h1 + (-l*o) * h2
-theorem quad_0_5 (l o c : ℝ) (h1 : l ^ 2 - o ^ 2 = c - 2) (h2 : l ^ 2 * o ^ 2 = 2 * c ^ 2 - c - 1) :
-    quad l o c 0 5 = quadTarget l o c 0 5 := by
-  simp only [quad, quadTarget, Chat, E1, E2]
-  linear_combination (0) * h1 + (0) * h2
-theorem quad_1_1 (l o c : ℝ) (h1 : l ^ 2 - o ^ 2 = c - 2) (h2 : l ^ 2 * o ^ 2 = 2 * c ^ 2 - c - 1) :
-    quad l o c 1 1 = quadTarget l o c 1 1 := by
-  simp only [quad, quadTarget, Chat, E1, E2]
-  linear_combination (-4*c^2 + 2*c*o^2 + 2*c + 2*l^2*o^2 + o^2 + 2) * h1 + (-2*l^2 + 2*o^2 - 5) * h2
-theorem quad_1_2 (l o c : ℝ) (h1 : l ^ 2 - o ^ 2 = c - 2) (h2 : l ^ 2 * o ^ 2 = 2 * c ^ 2 - c - 1) :
-    quad l o c 1 2 = quadTarget l o c 1 2 := by
-  simp only [quad, quadTarget, Chat, E1, E2]
-  linear_combination (0) * h1 + (0) * h2
-theorem quad_1_3 (l o c : ℝ) (h1 : l ^ 2 - o ^ 2 = c - 2) (h2 : l ^ 2 * o ^ 2 = 2 * c ^ 2 - c - 1) :
-    quad l o c 1 3 = quadTarget l o c 1 3 := by
-  simp only [quad, quadTarget, Chat, E1, E2]
-  linear_combination (-4*c^2 + 2*c + l^2*o^2 + 2) * h1 + (-l^2 + o^2 - 5) * h2
-theorem quad_1_4 (l o c : ℝ) (h1 : l ^ 2 - o ^ 2 = c - 2) (h2 : l ^ 2 * o ^ 2 = 2 * c ^ 2 - c - 1) :
-    quad l o c 1 4 = quadTarget l o c 1 4 := by
-  simp only [quad, quadTarget, Chat, E1, E2]
-  linear_combination (0) * h1 + (0) * h2
-theorem quad_1_5 (l o c : ℝ) (h1 : l ^ 2 - o ^ 2 = c - 2) (h2 : l ^ 2 * o ^ 2 = 2 * c ^ 2 - c - 1) :
-    quad l o c 1 5 = quadTarget l o c 1 5 := by
-  simp only [quad, quadTarget, Chat, E1, E2]
-  linear_combination (0) * h1 + (0) * h2
-theorem quad_2_2 (l o c : ℝ) (h1 : l ^ 2 - o ^ 2 = c - 2) (h2 : l ^ 2 * o ^ 2 = 2 * c ^ 2 - c - 1) :
-    quad l o c 2 2 = quadTarget l o c 2 2 := by
-  simp only [quad, quadTarget, Chat, E1, E2]
-  linear_combination (0) * h1 + (0) * h2
-theorem quad_2_3 (l o c : ℝ) (h1 : l ^ 2 - o ^ 2 = c - 2) (h2 : l ^ 2 * o ^ 2 = 2 * c ^ 2 - c - 1) :
-    quad l o c 2 3 = quadTarget l o c 2 3 := by
-  simp only [quad, quadTarget, Chat, E1, E2]
-  linear_combination (0) * h1 + (0) * h2
-theorem quad_2_4 (l o c : ℝ) (h1 : l ^ 2 - o ^ 2 = c - 2) (h2 : l ^ 2 * o ^ 2 = 2 * c ^ 2 - c - 1) :
-    quad l o c 2 4 = quadTarget l o c 2 4 := by
-  simp only [quad, quadTarget, Chat, E1, E2]
-  linear_combination (0) * h1 + (0) * h2
-theorem quad_2_5 (l o c : ℝ) (h1 : l ^ 2 - o ^ 2 = c - 2) (h2 : l ^ 2 * o ^ 2 = 2 * c ^ 2 - c - 1) :
-    quad l o c 2 5 = quadTarget l o c 2 5 := by
-  simp only [quad, quadTarget, Chat, E1, E2]
-  linear_combination (0) * h1 + (0) * h2
-theorem quad_3_3 (l o c : ℝ) (h1 : l ^ 2 - o ^ 2 = c - 2) (h2 : l ^ 2 * o ^ 2 = 2 * c ^ 2 - c - 1) :
-    quad l o c 3 3 = quadTarget l o c 3 3 := by
-  simp only [quad, quadTarget, Chat, E1, E2]
-  linear_combination (-4*c^2 - 2*c*l^2 + 2*c + l^4 + 2*l^2*o^2 - l^2 + 2) * h1 + (-l^2 + 2*o^2 - 5) * h2
-theorem quad_3_4 (l o c : ℝ) (h1 : l ^ 2 - o ^ 2 = c - 2) (h2 : l ^ 2 * o ^ 2 = 2 * c ^ 2 - c - 1) :
-    quad l o c 3 4 = quadTarget l o c 3 4 := by
-  simp only [quad, quadTarget, Chat, E1, E2]
-  linear_combination (2*c*l*o + l*o) * h1 + (l*o) * h2
-theorem quad_3_5 (l o c : ℝ) (h1 : l ^ 2 - o ^ 2 = c - 2) (h2 : l ^ 2 * o ^ 2 = 2 * c ^ 2 - c - 1) :
-    quad l o c 3 5 = quadTarget l o c 3 5 := by
-  simp only [quad, quadTarget, Chat, E1, E2]
-  linear_combination (0) * h1 + (0) * h2
-theorem quad_4_4 (l o c : ℝ) (h1 : l ^ 2 - o ^ 2 = c - 2) (h2 : l ^ 2 * o ^ 2 = 2 * c ^ 2 - c - 1) :
-    quad l o c 4 4 = quadTarget l o c 4 4 := by
-  simp only [quad, quadTarget, Chat, E1, E2]
-  linear_combination (-o^4) * h1 + (o^2) * h2
-theorem quad_4_5 (l o c : ℝ) (h1 : l ^ 2 - o ^ 2 = c - 2) (h2 : l ^ 2 * o ^ 2 = 2 * c ^ 2 - c - 1) :
-    quad l o c 4 5 = quadTarget l o c 4 5 := by
-  simp only [quad, quadTarget, Chat, E1, E2]
-  linear_combination (0) * h1 + (0) * h2
-theorem quad_5_5 (l o c : ℝ) (h1 : l ^ 2 - o ^ 2 = c - 2) (h2 : l ^ 2 * o ^ 2 = 2 * c ^ 2 - c - 1) :
-    quad l o c 5 5 = quadTarget l o c 5 5 := by
-  simp only [quad, quadTarget, Chat, E1, E2]
-  linear_combination (0) * h1 + (0) * h2
-
+''')
+# per-entry certificate lemmas
+for name,i,j,a1,a2 in cert:
+    fn = "sympl" if name=="J" else "quad"
+    tg = "symplTarget" if name=="J" else "quadTarget"
+    L.append(f'''theorem {fn}_{i}_{j} (l o c : ℝ) (h1 : l ^ 2 - o ^ 2 = c - 2) (h2 : l ^ 2 * o ^ 2 = 2 * c ^ 2 - c - 1) :
+    {fn} l o c {i} {j} = {tg} l o c {i} {j} := by
+  simp only [{fn}, {tg}, Chat, E1, E2]
+  linear_combination ({fix(a1)}) * h1 + ({fix(a2)}) * h2
+''')
+L.append('''
 /-- **Ĉ is symplectic up to the column scalings and diagonalises H₂** (all 15 + 21 independent entries), for all real `λ, ω, c₂`
 satisfying the two Vieta relations — i.e. `λ²` and `−ω²` are the two roots of the characteristic equation in `η²`. -/
 theorem chat_symplectic_and_diagonalising (l o c : ℝ) (h1 : l ^ 2 - o ^ 2 = c - 2) (h2 : l ^ 2 * o ^ 2 = 2 * c ^ 2 - c - 1)
@@ -447,46 +321,16 @@ theorem chat_symplectic_and_diagonalising (l o c : ℝ) (h1 : l ^ 2 - o ^ 2 = c 
   · intro hij
     interval_cases j <;> interval_cases i <;>
       first
-        | exact sympl_0_1 l o c h1 h2
-        | exact sympl_0_2 l o c h1 h2
-        | exact sympl_0_3 l o c h1 h2
-        | exact sympl_0_4 l o c h1 h2
-        | exact sympl_0_5 l o c h1 h2
-        | exact sympl_1_2 l o c h1 h2
-        | exact sympl_1_3 l o c h1 h2
-        | exact sympl_1_4 l o c h1 h2
-        | exact sympl_1_5 l o c h1 h2
-        | exact sympl_2_3 l o c h1 h2
-        | exact sympl_2_4 l o c h1 h2
-        | exact sympl_2_5 l o c h1 h2
-        | exact sympl_3_4 l o c h1 h2
-        | exact sympl_3_5 l o c h1 h2
-        | exact sympl_4_5 l o c h1 h2
-  · intro hij
+''')
+for name,i,j,a1,a2 in cert:
+    if name=="J": L.append(f"        | exact sympl_{i}_{j} l o c h1 h2\n")
+L.append('''  · intro hij
     interval_cases j <;> interval_cases i <;>
       first
-        | exact quad_0_0 l o c h1 h2
-        | exact quad_0_1 l o c h1 h2
-        | exact quad_0_2 l o c h1 h2
-        | exact quad_0_3 l o c h1 h2
-        | exact quad_0_4 l o c h1 h2
-        | exact quad_0_5 l o c h1 h2
-        | exact quad_1_1 l o c h1 h2
-        | exact quad_1_2 l o c h1 h2
-        | exact quad_1_3 l o c h1 h2
-        | exact quad_1_4 l o c h1 h2
-        | exact quad_1_5 l o c h1 h2
-        | exact quad_2_2 l o c h1 h2
-        | exact quad_2_3 l o c h1 h2
-        | exact quad_2_4 l o c h1 h2
-        | exact quad_2_5 l o c h1 h2
-        | exact quad_3_3 l o c h1 h2
-        | exact quad_3_4 l o c h1 h2
-        | exact quad_3_5 l o c h1 h2
-        | exact quad_4_4 l o c h1 h2
-        | exact quad_4_5 l o c h1 h2
-        | exact quad_5_5 l o c h1 h2
-
+''')
+for name,i,j,a1,a2 in cert:
+    if name=="S": L.append(f"        | exact quad_{i}_{j} l o c h1 h2\n")
+L.append('''
 /-- entries of `CᵀJC` and `CᵀSC` for the traced matrix -/
 noncomputable def Cent (ρ : ℕ → ℝ) (i j : ℕ) : ℝ := eval ρ (nfC (6 * i + j))
 noncomputable def CtJC (ρ : ℕ → ℝ) (i j : ℕ) : ℝ :=
@@ -735,3 +579,6 @@ theorem catalogue_in_domain : catalogue.all pairGood = true ∧ catalogue.length
   · rfl
 
 end HitenModel.Props.C04
+''')
+open(os.path.join(os.path.dirname(os.path.abspath(__file__)),'..','lean','HitenModel','Props','C04.lean'),'w').write("".join(L))
+print("written", sum(len(x) for x in L))
